@@ -196,8 +196,9 @@ EXPORT errno_t _wcsnatcmp_s_chk(const wchar_t *dest, rsize_t dmax,
         }
         dest = d1;
         src = d2;
-        dmax = l1;
-        smax = l2;
+        /* the terminators take part in the comparison */
+        dmax = l1 + 1;
+        smax = l2 + 1;
     }
 
     ai = bi = 0;
